@@ -5,8 +5,8 @@
 (* ignBy = the directories whose ignore file has a rule matching the entry's name (not only ancestors: with --follow-links the   *)
 (* ignore files of the ROUTE by which an entry is reached are in effect); sel = the file passes the size and pattern filters          *)
 (* (for a link reported with --symbolic-links: evaluated on the link's own path, size of its target);       *)
-(* target = the entry a link points to (0 = dangling); dev = file system of the entry; blocked = the link's   *)
-(* own path is matched by an --exclude pattern (excluded paths are not traversed).                            *)
+(* target = the entry a link points to (0 = dangling); dev = file system of the entry; blocked = the link     *)
+(* lies in a directory that an --exclude pattern (a "subtree" pattern) prunes, so the walk never gets to it.      *)
 (* roots (sequence of entry ids, in the order given); opts: depth (-1 = unlimited), hidden, noIgnore,        *)
 (* follow (--follow-links), report (--symbolic-links), oneFs.                                                *)
 (*   depth as documented: 0 = no descent, 1 = only the given directories, ...                               *)
